@@ -97,6 +97,12 @@ SparseOK(st, o) ==
      /\ o.e3 <= 1000 * n + (1000 * n) \div 256 + 1
      /\ o.rel[2] >= 48 /\ o.rel[2] <= 52
 
+\* C01 (register mode): every register that is not zero was raised by an item of its own, so the set has at
+\* least that many members; an interval whose three-sigma upper bound lies below that number cannot contain
+\* the true cardinality for any item set that leads to this state. (Evaluated at checkpoints and union steps.)
+NzOK(st, o) ==
+  (On("C01") /\ st.mode = "arr" /\ "ub3i" \in DOMAIN o) => o.ub3i + 1 >= KOf(st) - Histogram(st)[0]
+
 ObsOK(st, o) ==
   /\ On("C01") => (NonDecreasing(o.b) /\ RelOK(st, o.rel) /\ SparseOK(st, o))
   /\ On("C02") => o.emp = IsEmpty(st)
@@ -154,7 +160,7 @@ TrChk ==
   /\ (On("C02") \/ On("C03")) => Full(obj[Ev.id]) = Ev.st
   /\ (On("C01") \/ On("C02") \/ On("C03") \/ On("C12")) => KxqOK(obj[Ev.id], Ev)   \* (C12: header bytes 16..32)
   /\ On("C12") => ImgOK(obj[Ev.id], Ev)
-  /\ ObsOK(obj[Ev.id], Ev.o)
+  /\ ObsOK(obj[Ev.id], Ev.o) /\ NzOK(obj[Ev.id], Ev.o)
   /\ UNCHANGED <<obj, uni>>
 
 \* C13: an image of some cross-language variant, built by the harness from the abstract state abs.
@@ -202,7 +208,7 @@ GadgetOK(u, e) ==
 TrUUpd ==
   /\ IsEv("UUpd")
   /\ uni' = [uni EXCEPT ![Ev.id] = UnionUpdate(@, obj[Ev.src])]
-  /\ GadgetOK(uni'[Ev.id], Ev)
+  /\ GadgetOK(uni'[Ev.id], Ev) /\ NzOK(uni'[Ev.id].g, Ev.o)
   /\ UNCHANGED obj
 
 TrUVal ==
@@ -219,7 +225,7 @@ TrUReset ==
 TrUChk ==
   /\ IsEv("UChk")
   /\ On("C03") => Full(uni[Ev.id].g) = Ev.st
-  /\ ObsOK(uni[Ev.id].g, Ev.o)
+  /\ ObsOK(uni[Ev.id].g, Ev.o) /\ NzOK(uni[Ev.id].g, Ev.o)
   /\ UNCHANGED <<obj, uni>>
 
 \* to_sketch for the three target types at once: same registers, same flag, and the
@@ -230,7 +236,7 @@ TrUToSk3 ==
              @@ (Ev.to[3] :> ToSketch(uni[Ev.id], Ev.types[3])) @@ obj
   /\ \A j \in 1..3 : LET n == obj'[Ev.to[j]] IN
                        /\ On("C03") => Full(n) = Ev.st[j]
-                       /\ ObsOK(n, Ev.o[j])
+                       /\ ObsOK(n, Ev.o[j]) /\ NzOK(n, Ev.o[j])
   /\ On("C03") => (Ev.tok[1] = Ev.tok[2] /\ Ev.tok[2] = Ev.tok[3] /\ Ev.tok[3] = Ev.utok)
   /\ UNCHANGED uni
 
